@@ -489,6 +489,18 @@ VS_PLAIN = mksched(Scheduler, plain=True)
 VP_PLAIN = mksched(PureScheduler, plain=True)
 
 
+class StrictOut(io.TextIOWrapper):
+    """a standard output like the interpreter's own (utf-8, errors="strict"); a message it cannot encode is logged with
+    the scheduler whose orchestration was printing it"""
+
+    def write(self, text):
+        try:
+            return super().write(text)
+        except UnicodeError:
+            emit("outfail", CUR.get())
+            raise
+
+
 def exc_id(e):
     """identity of an exception object: the job that raised it, or the scheduler whose TimeoutError it is"""
     for n, j in STATE["jobs"].items():
@@ -713,7 +725,7 @@ def run(sc, linger=None, shutdown_again=True):
     res = {}
     so = sys.stdout
     # (`strict_out`: a standard output like the interpreter's own - utf-8, errors="strict" - instead of a StringIO)
-    sys.stdout = io.TextIOWrapper(io.BytesIO(), encoding="utf-8", errors="strict") if sc.get("strict_out") else io.StringIO()
+    sys.stdout = StrictOut(io.BytesIO(), encoding="utf-8", errors="strict") if sc.get("strict_out") else io.StringIO()
     STATE["active"] = True
     try:
         top, objs = build(sc)
